@@ -144,8 +144,69 @@ fn run_aged(ctx: &mut Ctx, opts: &[&str], warm: bool, depth: usize, core: bool) 
     ctx.bound(&format!("{mname} [{}]", cfg.label()), format!("depth {depth}, {} actions", actions.len()));
 }
 
+/// REPEAT: long homogeneous histories. For every ordered pair (a, b) of frames of one aircraft, the stream
+/// a x k, b (k = 11, 70, 300) fed as ONE run must give the table that a, a, b give step by step (re-feeding a
+/// frame to its row changes nothing, so a x k is a, a): counters, streak detectors and confirmation filters that only act
+/// after the n-th identical frame show up here. From the empty table and behind the warm prefix.
+const REPEAT_KS: [usize; 3] = [11, 70, 300];
+
+fn repeat_case(cfg: &Cfg, warm: bool, a: &[u8], b: &[u8], k: usize) -> (crate::run::Outcome, Vec<crate::snap::Snap>, Vec<crate::snap::Snap>) {
+    use crate::engine::explore::{Act, Action, apply};
+    let init = if warm { warm_init(cfg) } else { vec![] };
+    // a, a, b: the first a may create the row (a different path), the second is the update that repeats
+    let (_, s1) = apply(cfg, &init, &Action { name: "a".into(), act: Act::Line(a.to_vec()) });
+    let (_, s2) = apply(cfg, &s1, &Action { name: "a".into(), act: Act::Line(a.to_vec()) });
+    let (_, want) = apply(cfg, &s2, &Action { name: "b".into(), act: Act::Line(b.to_vec()) });
+    let mut lines: Vec<Vec<u8>> = if warm { warm_lines() } else { vec![] };
+    lines.extend(std::iter::repeat_n(a.to_vec(), k));
+    lines.push(b.to_vec());
+    let t = crate::snap::new_table();
+    let o = crate::run::run_file(cfg, &crate::run::join_lines(&lines), &t);
+    (o, crate::snap::snapshot(&t), want)
+}
+
+fn run_repeat(ctx: &mut Ctx, opts: &[&str], job: &mut u64) {
+    use crate::engine::explore::Act;
+    let cfg = Cfg::new(opts);
+    let acts = rowmodel::aircraft_actions("A", rowmodel::ADDR[0]);
+    let line = |i: usize| match &acts[i].act {
+        Act::Line(l) => l.clone(),
+        _ => unreachable!(),
+    };
+    for warm in [false, true] {
+        for ai in 0..acts.len() {
+            *job += 1;
+            if !ctx.mine(*job) {
+                continue;
+            }
+            for bi in 0..acts.len() {
+                for k in REPEAT_KS {
+                    let (o, got, want) = repeat_case(&cfg, warm, &line(ai), &line(bi), k);
+                    ctx.eval();
+                    ctx.count("repeat:a x k, b");
+                    if !o.is_ok() || got != want {
+                        let d = got.iter().zip(want.iter()).filter(|(a, b)| a != b).map(|(g, w)| crate::snap::diff_fields(w, g).join("; ")).collect::<Vec<_>>().join(" | ");
+                        let key = format!("{}{} x {k} > {}", if warm { "warm > " } else { "" }, acts[ai].name, acts[bi].name);
+                        ctx.violation(
+                            &format!("C11/REPEAT/{}", cfg.label()),
+                            &key,
+                            || format!("[{key}] fed as one stream ({}) gives a different table than [{} > {} > {}] step by step: {d} ({} vs {} rows)", o.label(), acts[ai].name, acts[ai].name, acts[bi].name, got.len(), want.len()),
+                            || json!({"repeat": {"a": ai, "b": bi, "k": k, "warm": warm}, "cfg": cfg.opts}),
+                        );
+                        break; // the smallest failing k is the one reported
+                    }
+                }
+            }
+        }
+    }
+}
+
 fn run(ctx: &mut Ctx) {
     squitterator::set_observer_coords_from_str(rowmodel::OBSERVER_STR);
+    let mut rjob = 500_000u64;
+    for opts in configs() {
+        run_repeat(ctx, &opts, &mut rjob);
+    }
     for opts in configs() {
         for warm in [false, true] {
             run_aged(ctx, &opts, warm, if ctx.tier.thorough() && opts.len() < 2 { 4 } else { 3 }, false);
@@ -174,6 +235,21 @@ fn replay(ctx: &mut Ctx, case: &Value) {
     let n = case.pointer("/extra/naircraft").and_then(|x| x.as_u64()).unwrap_or(2) as usize;
     let depth = case.pointer("/extra/depth").and_then(|x| x.as_u64()).unwrap_or(3) as usize;
     let path: Vec<usize> = case.get("path").and_then(|p| p.as_array()).map(|a| a.iter().filter_map(|x| x.as_u64().map(|v| v as usize)).collect()).unwrap_or_default();
+    if let Some(r) = case.get("repeat") {
+        let g = |k: &str| r.get(k).and_then(|x| x.as_u64()).unwrap_or(0) as usize;
+        let warm = r.get("warm").and_then(|x| x.as_bool()).unwrap_or(false);
+        let acts = rowmodel::aircraft_actions("A", rowmodel::ADDR[0]);
+        let line = |i: usize| match &acts[i % acts.len()].act {
+            crate::engine::explore::Act::Line(l) => l.clone(),
+            _ => unreachable!(),
+        };
+        let (o2, got, want) = repeat_case(&cfg, warm, &line(g("a")), &line(g("b")), g("k"));
+        crate::run::say(&format!("{}{} x {} > {}: one run {} -> {} rows; step by step {} rows; identical: {}", if warm { "warm > " } else { "" }, acts[g("a") % acts.len()].name, g("k"), acts[g("b") % acts.len()].name, o2.label(), got.len(), want.len(), got == want));
+        if !o2.is_ok() || got != want {
+            ctx.violation("C11/REPEAT", "replay", || "a long run of one frame followed by another gives a different table than the two frames".into(), || case.clone());
+        }
+        return;
+    }
     if case.pointer("/extra/aged").is_some() {
         let warm = case.pointer("/extra/warm").and_then(|x| x.as_bool()).unwrap_or(false);
         let core = case.pointer("/extra/core").and_then(|x| x.as_bool()).unwrap_or(false);
